@@ -183,8 +183,9 @@ prop('C16',
      uncovered=['the TZif byte parser and the TZ-string grammar (iterator adapters, Vec, str::from_utf8): CBMC did not finish on 52-byte / 12-byte symbolic inputs in 20 min, so only the native sweep covers them',
                 'acceptance of every file a conforming writer emits (a statement over generated files, not a contract); only the 10 synthetic files + 15 rules of the twin',
                 'that the POSIX rule lookups select the prescribed type (only safety / shape / ordering proved)', 'leap-second records'],
-     text='Proved (Verus, unbounded): on a zone that passed validate(), the wall-clock lookup never overflows or indexes out of bounds for any file-supplied 64-bit transition time, '
-          'and every candidate it returns is sound. Bounded Kani stand-ins: validate() accepts exactly well-formed tables; instant lookup. Bounded native stand-in (tz twin, through the public '
+     text='Proved (Verus, unbounded, real text): validate() returning Ok implies well-formedness; LocalTimeType::new / with_offset accept only offsets inside (-24h, 24h); TimeZoneName::new accepts exactly 3..7 '
+          'characters from [0-9A-Za-z+-] and stores them; RuleDay constructors and AlternateTime::new accept exactly the documented ranges; on a validated zone both lookups (table and POSIX rule, incl. from_timespec) never overflow or index '
+          'out of bounds for any file-supplied 64-bit transition time, every instant and every wall-clock time, and every candidate they return is sound. Bounded Kani stand-ins: validate() accepts exactly well-formed tables; instant lookup. Bounded native stand-in (tz twin, through the public '
           'TZ=:/file and TZ=rule route on fresh threads): files written by an independent TZif writer and POSIX rules yield exactly the modelled offsets, gaps and folds; ~700 structured '
           'mutations (truncations, header-count and 64-bit-time extremes, random bytes, mutated TZ strings) never panic.')
 
